@@ -54,6 +54,10 @@ type c05Mutant struct {
 	At    uint32
 	Front bool // placed before the block's other entries
 	Entry forge.Entry
+	// Foreign: the entry is not on the transaction chain at all: it sits in the entry block of another chain
+	// (whose id sorts right after the transaction chain's) of a directory block in which the transaction chain
+	// is silent, and is signed for that other chain
+	Foreign bool
 }
 
 func rebuild(chain factom.Bytes32, ext [][]byte, content []byte) forge.Entry {
@@ -159,6 +163,12 @@ func c05Run(j *orch.Job, r *orch.Result) error {
 	for _, b := range bases {
 		b := b
 		m.Schedule(b.At, func(v *gen.View, s *forge.BlockSpec) { s.Tx = append(s.Tx, b.Entry) })
+	}
+
+	// two directory blocks in which the transaction chain is silent (after everything else scheduled there)
+	quiet := []uint32{T1 + 4, T2 + 4}
+	for _, q := range quiet {
+		m.Schedule(q, func(v *gen.View, s *forge.BlockSpec) { s.Tx = nil })
 	}
 
 	// ---- reference run
@@ -311,6 +321,21 @@ func c05Run(j *orch.Job, r *orch.Result) error {
 		addMut("two-inputs-one-signature base="+b.Name, b.At+1, forge.SignContent(config.TransactionChain, forge.BatchContent(two), b.Salt, attacker))
 		addMut("two-inputs-two-foreign-signatures base="+b.Name, b.At+1, forge.SignContent(config.TransactionChain, forge.BatchContent(two), b.Salt, attacker, attackerEth))
 	}
+	// a batch of a funded sender, correctly signed - for another chain, where it is written: chains are FAT-2 tokens
+	// of their own, and the chain id in the signed message is what keeps a batch on its chain
+	foreignChain := config.TransactionChain
+	for i := 31; i >= 0; i-- {
+		foreignChain[i]++
+		if foreignChain[i] != 0 {
+			break
+		}
+	}
+	for qi, q := range quiet {
+		b := bases[qi] // transfer-rcd1 / conversion-rcd1: funded, their own entries executed long before
+		steal := forge.Transfer(b.S.FA(), fat2.PTickerUSD, 50*1e8, attacker.FA())
+		muts = append(muts, c05Mutant{Label: "foreign-chain-batch base=" + b.Name, At: q, Foreign: true,
+			Entry: forge.SignContent(foreignChain, forge.BatchContent([]forge.Tx{steal}), m.W.EntryTime(q), b.S)})
+	}
 	byHash := map[string]string{}
 	baseHash := map[factom.Bytes32]bool{}
 	for _, b := range bases {
@@ -318,6 +343,7 @@ func c05Run(j *orch.Job, r *orch.Result) error {
 	}
 	front := map[uint32][]forge.Entry{}
 	back := map[uint32][]forge.Entry{}
+	foreign := map[uint32][]forge.Entry{}
 	nm := 0
 	for _, mu := range muts {
 		if baseHash[mu.Entry.Hash] {
@@ -327,6 +353,13 @@ func c05Run(j *orch.Job, r *orch.Result) error {
 			continue
 		}
 		byHash[hex.EncodeToString(mu.Entry.Hash[:])] = mu.Label
+		if mu.Foreign {
+			foreign[mu.At] = append(foreign[mu.At], mu.Entry)
+			nm++
+			r.Seen("mutant_classes", strings.SplitN(mu.Label, " base=", 2)[0])
+			r.Seen("class_base", mu.Label)
+			continue
+		}
 		if mu.Front {
 			front[mu.At] = append(front[mu.At], mu.Entry)
 		} else {
@@ -340,6 +373,9 @@ func c05Run(j *orch.Job, r *orch.Result) error {
 	variant := m.W.Variant(func(h uint32, s *forge.BlockSpec) {
 		if len(front[h]) > 0 || len(back[h]) > 0 {
 			s.Tx = append(append(append([]forge.Entry{}, front[h]...), s.Tx...), back[h]...)
+		}
+		if len(foreign[h]) > 0 && len(s.Tx) == 0 {
+			s.Other = map[factom.Bytes32][]forge.Entry{factom.Bytes32(foreignChain): foreign[h]}
 		}
 	})
 	vdb := filepath.Join(j.Dir, "variant")
